@@ -9,7 +9,20 @@ use vstd::prelude::*;
 pub broadcast proof fn axiom_question_mark_uses_from<F: From<E>, E>(e: E, r: F)
   ensures #[trigger] vstd::std_specs::control_flow::spec_from::<F, E>(e, r) ==> call_ensures(<F as From<E>>::from, (e,), r)
 { admit(); }
+/// `str` values are determined by their characters (Verus compares string patterns by value, exec `==` by view).
+pub broadcast proof fn axiom_str_ext(a: &str, b: &str)
+  ensures #![trigger a@, b@] (a@ == b@) ==> a == b
+{ admit(); }
+/// `String == str` (also through references) compares the characters.
+pub broadcast proof fn axiom_string_str_eq(a: &String, b: &str)
+  ensures #![trigger a@, b@] <String as vstd::std_specs::cmp::PartialEqSpec<str>>::obeys_eq_spec()
+    && <String as vstd::std_specs::cmp::PartialEqSpec<str>>::eq_spec(a, b) == (a@ == b@)
+{ admit(); }
 }
+/// ASSUMED std spec: Option::or_else
+pub assume_specification<T, F: FnOnce() -> Option<T>>[ Option::<T>::or_else ](o: Option<T>, f: F) -> (r: Option<T>)
+  requires o is None ==> f.requires(()),
+  ensures o is Some ==> r == o, o is None ==> f.ensures((), r);
 
 
 // ---------------------------------------------------------------------------------------------
@@ -59,8 +72,9 @@ pub mod time {
       year_utc(-377705116800) == -9999, year_utc(-377705116801) == -10000,
   { admit(); }
   /// derived (proved from the two axioms): the year window as a window on unix seconds
-  pub proof fn lemma_year_window(u: int)
+  pub broadcast proof fn lemma_year_window(u: int)
     ensures
+      #![trigger year_utc(u)]
       (0 <= year_utc(u) <= 9999) <==> (-62167219200 <= u <= 253402300799),
       (-9999 <= year_utc(u) <= 9999) <==> (-377705116800 <= u <= 253402300799),
   {
@@ -96,6 +110,8 @@ pub mod time {
 
   impl Duration {
     #[verifier::external_body] pub const fn nanoseconds(n: i64) -> (r: Duration) ensures dur_ns(r) == n { unimplemented!() }
+    #[verifier::external_body] pub const fn microseconds(n: i64) -> (r: Duration) ensures dur_ns(r) == n * 1_000 { unimplemented!() }
+    #[verifier::external_body] pub const fn milliseconds(n: i64) -> (r: Duration) ensures dur_ns(r) == n * 1_000_000 { unimplemented!() }
     #[verifier::external_body] pub const fn seconds(n: i64) -> (r: Duration) ensures dur_ns(r) == n * 1_000_000_000 { unimplemented!() }
     // documented: these panic on i64 overflow of the multiplication
     #[verifier::external_body] pub const fn minutes(n: i64) -> (r: Duration)
@@ -132,6 +148,10 @@ pub mod time {
     { unimplemented!() }
     #[verifier::external_body]
     pub const fn nanosecond(self) -> (r: u32) ensures r == nanos(self) { unimplemented!() }
+    #[verifier::external_body]
+    pub const fn microsecond(self) -> (r: u32) ensures r == nanos(self) / 1_000 { unimplemented!() }
+    #[verifier::external_body]
+    pub const fn millisecond(self) -> (r: u16) ensures r == nanos(self) / 1_000_000 { unimplemented!() }
     #[verifier::external_body]
     pub const fn year(self) -> (r: i32) ensures r == year(self) { unimplemented!() }
     #[verifier::external_body]
@@ -205,7 +225,7 @@ pub mod url { use vstd::prelude::*; #[verifier::external_body] pub struct ParseE
 use time::format_description::well_known::Rfc3339;
 use time::OffsetDateTime;
 use time::UtcOffset;
-broadcast use {time::axiom_sub, time::axiom_utc_is_zero, vxstd::axiom_question_mark_uses_from};
+broadcast use {time::axiom_sub, time::axiom_utc_is_zero, time::lemma_year_window, vxstd::axiom_question_mark_uses_from};
 
 pub type Result<T, E = Error> = ::core::result::Result<T, E>;
 pub enum Error {
@@ -222,6 +242,8 @@ pub enum Error {
 pub struct Timestamp(pub OffsetDateTime);
 #[derive(Clone, Copy)]
 pub struct Duration(pub time::Duration);
+
+impl core::fmt::Debug for Error { #[verifier::external_body] fn fmt(&self, f: &mut core::fmt::Formatter<'_>) -> core::fmt::Result { unimplemented!() } }
 
 /// Type invariant of `Timestamp` demanded by C13: whole-second UTC instant in years 0000-9999.
 pub open spec fn ts_wf(t: Timestamp) -> bool {
@@ -242,8 +264,8 @@ impl Timestamp {
       time::rfc3339_denotes(input@) is None ==> r is Err,
   {
     let offset_date_time = OffsetDateTime::parse(input, &Rfc3339)
-      .map_err(|x_eta| time::Error::from(x_eta))
-      .map_err(|x_eta| Error::InvalidTimestamp(x_eta))?
+      .map_err(|x_eta| -> (r_eta: _) requires call_requires(time::Error::from, (x_eta,)) ensures call_ensures(time::Error::from, (x_eta,), r_eta) { time::Error::from(x_eta) })
+      .map_err(|x_eta| -> (r_eta: Error) ensures r_eta == Error::InvalidTimestamp(x_eta) { Error::InvalidTimestamp(x_eta) })?
       .checked_to_offset(UtcOffset::UTC)
       .ok_or(Error::InvalidTimestamp(time::error::Error::Format(
         time::error::Format::InvalidComponent("invalid year"),
@@ -251,7 +273,7 @@ impl Timestamp {
 
     // The local year is within 0000AD - 9999AD per Rfc3339, but normalizing to UTC can move the
     // instant out of that range, see `from_unix`.
-     proof { time::lemma_year_window(time::unix(offset_date_time)); } if !(0..10_000).contains(&offset_date_time.year()) {
+    if !(0..10_000).contains(&offset_date_time.year()) {
       return Err(Error::InvalidTimestamp(time::error::Error::Format(
         time::error::Format::InvalidComponent("invalid year"),
       )));
@@ -284,10 +306,10 @@ impl Timestamp {
     ensures
       r is Ok <==> in_window(seconds as int),
       r is Ok ==> ts_wf(r->Ok_0) && ts_unix(r->Ok_0) == seconds,
-  { proof { time::lemma_year_window(seconds as int); } 
+  {
     let offset_date_time = OffsetDateTime::from_unix_timestamp(seconds)
-      .map_err(|x_eta| time::error::Error::from(x_eta))
-      .map_err(|x_eta| Error::InvalidTimestamp(x_eta))?;
+      .map_err(|x_eta| -> (r_eta: _) requires call_requires(time::error::Error::from, (x_eta,)) ensures call_ensures(time::error::Error::from, (x_eta,), r_eta) { time::error::Error::from(x_eta) })
+      .map_err(|x_eta| -> (r_eta: Error) ensures r_eta == Error::InvalidTimestamp(x_eta) { Error::InvalidTimestamp(x_eta) })?;
 
     // Reject years outside of the range 0000AD - 9999AD per Rfc3339
     // upfront to prevent conversion errors in to_rfc3339().
@@ -305,7 +327,7 @@ impl Timestamp {
     ensures
       r is Some <==> in_window(ts_unix(self) + dur_s(duration)),
       r is Some ==> ts_wf(r->Some_0) && ts_unix(r->Some_0) == ts_unix(self) + dur_s(duration),
-  { proof { time::lemma_year_window(ts_unix(self) + dur_s(duration)); time::lemma_year_window(ts_unix(self)); } 
+  {
     self
       .0
       .checked_add(duration.0)
@@ -317,7 +339,7 @@ impl Timestamp {
     ensures
       r is Some <==> in_window(ts_unix(self) - dur_s(duration)),
       r is Some ==> ts_wf(r->Some_0) && ts_unix(r->Some_0) == ts_unix(self) - dur_s(duration),
-  { proof { time::lemma_year_window(ts_unix(self) - dur_s(duration)); time::lemma_year_window(ts_unix(self)); } 
+  {
     self
       .0
       .checked_sub(duration.0)
